@@ -499,6 +499,11 @@ class SymEval:
         if isinstance(op, (ast.In, ast.NotIn)):
             t = ("in", a, b)
             return t if isinstance(op, ast.In) else ("not", t)
+        if isinstance(op, (ast.Eq, ast.NotEq)) and a[0] == "tuple" and b[0] == "tuple" and len(a[1]) == len(b[1]) and a[1]:
+            # (x, y) == (u, v) is x == u and y == v
+            parts = tuple(sorted((self._cmp(ast.Eq(), x, y) for x, y in zip(a[1], b[1])), key=repr))
+            t = parts[0] if len(parts) == 1 else ("and", parts)
+            return t if isinstance(op, ast.Eq) else negate(t)
         if _is_stringy(a) or _is_stringy(b) or _is_none(a) or _is_none(b):
             pair = tuple(sorted((a, b), key=repr))
             if isinstance(op, ast.Eq):
